@@ -1,6 +1,8 @@
-"""Process pool: one task per process slot, hard wall-clock guard per task."""
+"""Task pool: one forked process per task, a hard wall-clock guard per task, and survival of killed workers
+(a worker that dies - e.g. from the out-of-memory killer - yields a crash record for its task, never a hang)."""
 import multiprocessing as mp
 import os
+import resource
 import signal
 import time
 import traceback
@@ -14,29 +16,76 @@ def _alarm(signum, frame):
     raise TaskTimeout()
 
 
-def _run(payload):
-    fn, item, limit = payload
-    signal.signal(signal.SIGALRM, _alarm)
-    signal.alarm(int(limit))
-    t0 = time.time()
+def _child(fn, item, limit, conn, mem_gb):
     try:
-        return (item, fn(item), time.time() - t0)
-    except TaskTimeout:
-        return (item, dict(crash='hard time limit of %ds' % limit, timeout=True), time.time() - t0)
-    except Exception as e:     # noqa: B902
-        return (item, dict(crash='%s: %s' % (type(e).__name__, str(e)[:300]), tb=traceback.format_exc()[-2000:]), time.time() - t0)
+        if mem_gb:
+            lim = int(mem_gb * (1 << 30))
+            try:
+                resource.setrlimit(resource.RLIMIT_AS, (lim, lim))
+            except (ValueError, OSError):
+                pass
+        signal.signal(signal.SIGALRM, _alarm)
+        signal.alarm(int(limit))
+        try:
+            res = fn(item)
+        except TaskTimeout:
+            res = dict(crash='hard time limit of %ds' % limit, timeout=True)
+        except MemoryError:
+            res = dict(crash='memory limit of %s GB' % mem_gb, timeout=True)
+        except Exception as e:     # noqa: B902
+            res = dict(crash='%s: %s' % (type(e).__name__, str(e)[:300]), tb=traceback.format_exc()[-2000:])
+        finally:
+            signal.alarm(0)
+        conn.send(res)
+    except BaseException as e:     # noqa: B902
+        try:
+            conn.send(dict(crash='worker failed: %s' % type(e).__name__, timeout=True))
+        except Exception:     # noqa: B902
+            pass
     finally:
-        signal.alarm(0)
+        conn.close()
+        os._exit(0)
 
 
-def pool_map(fn, items, procs=None, limit=900, progress=None):
+def pool_map(fn, items, procs=None, limit=900, progress=None, mem_gb=6):
     """fn must be a module-level function; results as a list of (item, result, secs) in completion order"""
     procs = procs or int(os.environ.get('VERIF_PROCS') or min(16, os.cpu_count() or 4))
     ctx = mp.get_context('fork')
+    todo = list(items)[::-1]
+    running = {}          # pid -> (process, conn, item, t0)
     out = []
-    with ctx.Pool(procs, maxtasksperchild=4) as pool:
-        for r in pool.imap_unordered(_run, [(fn, it, limit) for it in items]):
-            out.append(r)
-            if progress:
-                progress(r)
+
+    def finish(pid, res):
+        p, conn, item, t0 = running.pop(pid)
+        r = (item, res, time.time() - t0)
+        out.append(r)
+        if progress:
+            progress(r)
+    while todo or running:
+        while todo and len(running) < procs:
+            item = todo.pop()
+            parent, child = ctx.Pipe(duplex=False)
+            p = ctx.Process(target=_child, args=(fn, item, limit, child, mem_gb))
+            p.start()
+            child.close()
+            running[p.pid] = (p, parent, item, time.time())
+        time.sleep(0.02)
+        for pid in list(running):
+            p, conn, item, t0 = running[pid]
+            res = None
+            try:
+                if conn.poll():
+                    res = conn.recv()
+            except (EOFError, OSError):
+                res = None
+            if res is not None:
+                p.join(5)
+                finish(pid, res)
+            elif not p.is_alive():
+                p.join(1)
+                finish(pid, dict(crash='worker died (exit code %s: killed, probably out of memory)' % p.exitcode, timeout=True))
+            elif time.time() - t0 > limit + 30:
+                p.kill()
+                p.join(5)
+                finish(pid, dict(crash='hard time limit of %ds (killed)' % limit, timeout=True))
     return out
